@@ -2470,7 +2470,7 @@ impl Formatter {
       if i == 0 {
         src = format!("{}", s);
       } else {
-        src = format!("{},{}", src, s);
+        src = format!("{}, {}", src, s);
       }
     }
     if self.html {
@@ -2534,7 +2534,7 @@ impl Formatter {
       if i == 0 {
         src = format!("{}", s);
       } else {
-        src = format!("{},{}", src, s);
+        src = format!("{}, {}", src, s);
       }
     }
     if self.html {
@@ -2707,7 +2707,7 @@ impl Formatter {
       if i == 0 {
         src = format!("{}", e);
       } else {
-        src = format!("{},{}", src, e);
+        src = format!("{}, {}", src, e);
       }
     }
     if self.html {
